@@ -170,6 +170,35 @@ def pool(V, n, lo, hi):
              V.except_finding(fid, hi == 32767 and n > 32768, z3.Or(got == half_up, z3.And(tie_neg, got == half_up - 1))))]
 
 
+def pool_register(V, kh, kw, kind):
+    """what reaches the OFM_SCALE register of an average pool whose input and output share one scale: the REAL generate_ofm_scaling_for_pooling
+    with the tensors' scale a SYMBOLIC float of the given kind (np.float32 is what the model reader produces, a Python float what API users pass).
+    With equal scales the rescale factor is exactly 1, so the register must hold the exact divisor pair of quantise_pooling_scale (whose rounding
+    property the `pool` lemma establishes) - any precision lost while multiplying by that 1.0 moves accumulators to the wrong side."""
+    import ethosu.vela.register_command_stream_generator as g
+    import ethosu.vela.numeric_util as nu
+    import ethosu.vela.scaling as sc
+    from ethosu.vela import api as a
+
+    s = V.extra("float", "scale", kind)
+    if V.symbolic:
+        V.assume(z3.And(z3.fpGT(fp.F(s), z3.FPVal(2.0 ** -20, fp.F(s).sort())), z3.fpLT(fp.F(s), z3.FPVal(64.0, fp.F(s).sort()))))
+    elif not 2.0 ** -20 < float(s) < 64.0:
+        raise core.PathAbort("outside the range")
+    op = _Obj(kernel=_Obj(height=kh, width=kw), ifm=_Obj(quantization=_Obj(scale_f32=s, zero_point=0), data_type=a.NpuDataType.INT8),
+              ofm=_Obj(quantization=_Obj(scale_f32=s, zero_point=0)), activation=None, fused_quantize=False, rescale=None)
+    out = []
+    emit = _Obj(cmd1_with_offset=lambda cmd, scale, shift: out.append((scale, shift)))
+    with core.shims((g, {"int": core.sint, "max": core.smax, "min": core.smin, "np": fp.SNUMPY}), (nu, {"np": fp.SNUMPY}), *_shims()):
+        g.generate_ofm_scaling_for_pooling(emit, op)
+    want_scale, want_shift = sc.quantise_pooling_scale(kh * kw, 0)
+    if len(out) != 1:
+        return [("one OFM_SCALE command", False)]
+    scale, shift = out[0]
+    return [("shift of the exact divisor pair", L(shift) == want_shift),
+            ("scale of the exact divisor pair (equal input and output scales: rescale is exactly 1)", L(scale) == want_scale)]
+
+
 def pool_rescale(V, n, rescale_bits):
     """quantise_pooling_scale with rescale_bits as generate_ofm_scaling_for_pooling passes them: shift stays below 64 and the
     pair still denotes 1/n within one unit of its own precision"""
@@ -480,7 +509,7 @@ def scale_cache_key(V, **params):
     return c08.scale_cache_key(V, **params)
 
 
-FUNCS = {"scale_cache_key": scale_cache_key, "ew_select": ew_select, "prep_scales": prep_scales, "qs": qs, "rqs": rqs, "classes": classes, "pool": pool, "pool_rescale": pool_rescale, "addsub": addsub, "simple_addsub": simple_addsub, "mul": mul}
+FUNCS = {"pool_register": pool_register, "scale_cache_key": scale_cache_key, "ew_select": ew_select, "prep_scales": prep_scales, "qs": qs, "rqs": rqs, "classes": classes, "pool": pool, "pool_rescale": pool_rescale, "addsub": addsub, "simple_addsub": simple_addsub, "mul": mul}
 
 
 def _windows(tier, seed):
@@ -501,6 +530,11 @@ def _windows(tier, seed):
 
 def instances(tier, seed):
     out = []
+    for kh, kw in ((1, 1), (2, 2), (3, 3), (5, 10), (7, 7), (2, 7)):
+        for kind in ("f32", "f64", "py"):
+            if (kh, kw, kind) == (1, 1, "f32"):
+                continue  # the 1x1 branch compares s/s with 1: after widening float32 -> double z3 does not decide that quotient (unknown); f64/py do
+            out.append(dict(key="pool_register/%dx%d/%s" % (kh, kw, kind), fn="pool_register", params=dict(kh=kh, kw=kw, kind=kind)))
     for diff in ("none", "bias_values", "ifm_scale", "ofm_scale"):
         out.append(dict(key="scale_cache_key/%s" % diff, fn="scale_cache_key", params=dict(diff=diff)))
     for kind in ("py", "f64", "f32"):
